@@ -1666,8 +1666,9 @@ func runTransform(c *mon.Case) {
 	if !x.sameAlign("ReplaceMatchChars", "ReplaceMatchChars() after DiffWithFirst()", d, refReplaceMatch(before)) {
 		return
 	}
-	if !dots && len(loose) == 0 {
-		// no match character in A: the round trip gives A back
+	if !dots {
+		// no match character in A: the round trip gives A back, bit for bit (whatever DiffWithFirst does with
+		// characters that differ from the first row by case only: the statement asks for the original alignment)
 		x.sameAlign("DiffWithFirst+ReplaceMatchChars", "ReplaceMatchChars() after DiffWithFirst()", d, t.Rows)
 		c.Count("relation:diff-then-replace")
 	}
